@@ -77,10 +77,13 @@ def build_cases(mc_cases, tier, rng):
     sp = spellings()
     for t in sp:
         cases.append({"kind": "parse", "fam": "spelling", "text": t})
+    srcs = [c for c in mc_cases if c["kind"] == "src"]
+    for c in srcs:
+        cases.append({"kind": "src", "fam": c["fam"], "b": c["b"]})
     for k, c in enumerate(cases):
         c["id"] = "L%d" % k
     return cases, {"strings_len_le_2_total": len(len2), "strings_len_le_2_replayed": len(short) + len(two_sel), "strings_structured": len(other),
-                   "numbers": len(normal) + len(longs), "numbers_total_enumerated": len(nums), "spellings": len(sp)}
+                   "numbers": len(normal) + len(longs), "numbers_total_enumerated": len(nums), "spellings": len(sp), "source_string_spellings": len(srcs)}
 
 
 def cause_of(c, o, x):
@@ -123,6 +126,19 @@ def run_cases(rep, cases, label, chunk=8000):
             v = verdicts[o["id"]]
             c = byid[o["id"]]
             st["literals"] += 1
+            if o["kind"] == "src":
+                if o["status"] != "ok":
+                    st["src_rejected"] = st.get("src_rejected", 0) + 1
+                elif v["undecided"]:
+                    st["src_undecided"] = st.get("src_undecided", 0) + 1
+                else:
+                    st["src_judged"] = st.get("src_judged", 0) + 1
+                if not v["ok"]:
+                    st["by_cause"]["source_string_value"] = st["by_cause"].get("source_string_value", 0) + 1
+                    rep.violation({"cause": "source_string_value", "literal": bytes(c["b"]).decode("latin-1")[:80], "read_as": [ord(ch) for ch in o["val"]][:80],
+                                   "after_z": "after-z-vertical-tab-or-form-feed" if bytes(c["b"]).find(b"\\z") >= 0 and any(x in bytes(c["b"]) for x in (b"\x0b", b"\x0c")) else ""},
+                                  {"kind": "src", "b": c["b"], "fam": c["fam"]})
+                continue
             if o["kind"] == "parse":
                 if o["status"] != "ok":
                     st["spellings_rejected"].append({"text": o["text"][:40], "status": o["status"][:60]})
@@ -211,6 +227,7 @@ def run(tier):
         "traces_validated_against_impl": st["texts"] + st["spellings_judged"],
         "literals_replayed": st["literals"], "texts_lexed_by_tlc": st["texts"], "generator_runs": st["generator_runs"],
         "strings_judged": st["strings_judged"], "numbers_judged": st["numbers_judged"], "strings_exempt_from_lua51_clause": st["exempt_51"],
+        "source_strings_judged": st.get("src_judged", 0), "source_strings_rejected_by_darklua_parser": st.get("src_rejected", 0), "source_strings_undecided": st.get("src_undecided", 0),
         "spellings_judged": st["spellings_judged"], "spellings_rejected_by_darklua_parser": st["spellings_rejected"], "spellings_undecided_wider_than_64_bits": st["spellings_undecided"],
         "violating_texts_by_cause": st["by_cause"], "drift_strings": st["drift"],
         "samples": samples[:3],
